@@ -347,7 +347,8 @@ def run_sharded(cmd: List[str], items: List[str], workdir: str, tag: str, shards
 
 
 def impl_observe(profile: str, paths: List[str], workdir: str, level: int, max_frames=None, max_layers=None,
-                 timeout: float = 900, mem_kb: Optional[int] = 4000000, tag="impl", fresh_threads: bool = False, shards: int = NCPU):
+                 timeout: float = 900, mem_kb: Optional[int] = 4000000, tag="impl", fresh_threads: bool = False, shards: int = NCPU,
+                 extra_env: Optional[dict] = None):
     """By default the inputs of one shard are loaded and observed one after the other on ONE thread of the driver (state
     kept between loads shows up); fresh_threads=True gives every input a thread of its own (the isolated reference)."""
     cmd = [impl_driver(profile), "observe", "--level", str(level)]
@@ -355,8 +356,10 @@ def impl_observe(profile: str, paths: List[str], workdir: str, level: int, max_f
         cmd += ["--max-frames", str(max_frames)]
     if max_layers is not None:
         cmd += ["--max-layers", str(max_layers)]
-    return run_sharded(cmd, paths, workdir, tag + "_" + profile, timeout=timeout, mem_kb=mem_kb, shards=shards,
-                       extra_env={"VERIF_FRESH_THREADS": "1"} if fresh_threads else None)
+    env = dict(extra_env or {})
+    if fresh_threads:
+        env["VERIF_FRESH_THREADS"] = "1"
+    return run_sharded(cmd, paths, workdir, tag + "_" + profile, timeout=timeout, mem_kb=mem_kb, shards=shards, extra_env=env or None)
 
 
 def model_observe(paths: List[str], workdir: str, level: int, max_frames=None, max_layers=None,
